@@ -170,7 +170,8 @@ class WorldG : public World
                                  rp.uniform(0.5, 4),  // set_dir
                                  rp.uniform(0, 2),  // move_pos
                                  (spec.property == "C11" ? 4.0 : rp.uniform(0, 1.5)),  // safety
-                                 rp.uniform(0, 0.7)};  // copy_from
+                                 rp.uniform(0, 0.7),  // copy_from
+                                 rp.uniform(0, 1.5)};  // next_tie
         json ops = json::array();
         for (int i = 0; i < nops; ++i)
         {
@@ -318,7 +319,7 @@ class WorldG : public World
                     kind = c.has_next ? 3 : 1;
                 if ((kind == 6 || kind == 7) && (v.is_on_boundary() || c.pending_cross))
                     kind = c.pending_cross ? 4 : 1;
-                if (c.pending_cross && (kind == 1 || kind == 2 || kind == 3 || kind == 8))
+                if (c.pending_cross && (kind == 1 || kind == 2 || kind == 3 || kind == 8 || kind == 9))
                     kind = 4;  // the only things allowed on an uncrossed boundary: cross, set_dir, init
                 if (c.reversed_after_cross && kind == 5)
                     kind = 4;  // reentrant after a completed crossing: resolve it first
@@ -357,6 +358,9 @@ class WorldG : public World
                         dir[0] = dir[1] = dir[2] = 0;
                         dir[a] = u[3].get<double>() < 0.5 ? 1 : -1;
                     }
+                    if (op.contains("dirfix"))
+                        for (int k = 0; k < 3; ++k)
+                            dir[k] = op["dirfix"][k];
                     auto v = view(s);
                     GeoTrackInitializer gi;
                     gi.pos = {pos[0], pos[1], pos[2]};
@@ -390,6 +394,54 @@ class WorldG : public World
                                             + " but the point lies in " + std::to_string((int)p.leaf)
                                             + " " + p.str());
                         }
+                    }
+                    break;
+                }
+                case 9: {  // limited search with the limit exactly at the boundary distance
+                    auto v = view(s);
+                    bool onb = v.is_on_boundary();
+                    Propagation full = v.find_next_step();
+                    if (onb && full.boundary && full.distance == 0)
+                    {
+                        // re-entrant zero step: same handling as a plain search
+                        c.has_next = false;
+                        c.pending_cross = true;
+                        c.reversed_after_cross = true;
+                        record(s, kind, full.distance, full.boundary);
+                        break;
+                    }
+                    if (!full.boundary || !std::isfinite(full.distance) || !(full.distance > 0))
+                    {
+                        c.has_next = true;
+                        c.next_boundary = full.boundary;
+                        c.next_dist = full.distance;
+                        record(s, kind, full.distance, full.boundary);
+                        break;
+                    }
+                    // same direction again: clears the cached step
+                    Real3 same = v.dir();
+                    double d3[3] = {same[0], same[1], same[2]};
+                    v.set_dir(same);
+                    Propagation lim = v.find_next_step(full.distance);
+                    c.has_next = true;
+                    c.next_boundary = lim.boundary;
+                    c.next_dist = lim.distance;
+                    c.ref_reversed = false;
+                    record(s, kind, lim.distance, lim.boundary);
+                    rr.probe("limit_equals_boundary_distance");
+                    if (judge && c03 && (!lim.boundary || lim.distance != full.distance))
+                    {
+                        double pos[3] = {v.pos()[0], v.pos()[1], v.pos()[2]};
+                        std::ostringstream os;
+                        os.precision(17);
+                        os << "unlimited find_next_step from " << fmt3(pos) << " dir " << fmt3(d3)
+                           << " gives a boundary at " << full.distance
+                           << " but the search limited to exactly that distance returns "
+                           << lim.distance << " boundary=" << lim.boundary;
+                        violate("C03",
+                                "limited-search-drops-boundary-at-limit",
+                                "limited-search-drops-boundary-at-limit",
+                                os.str());
                     }
                     break;
                 }
@@ -612,6 +664,14 @@ class WorldG : public World
                         // more than one surface through the crossing point
                         // (corner, coincident faces): not judged
                         int nsurf = ref->surfaces_near(xb, p, gap);
+                        {
+                            // also along the path the track came from
+                            ld xm[3];
+                            for (int k = 0; k < 3; ++k)
+                                xm[k] = pos[k] - d4 * (ld)v.dir()[k];
+                            RefPath pm = ref->locate(xm);
+                            nsurf = std::max(nsurf, ref->surfaces_near(xb, pm, gap));
+                        }
                         if (!p.valid || clear < gap / 32 || nsurf > 1)
                         {
                             rr.count("skipped_ill_conditioned");
@@ -682,7 +742,17 @@ class WorldG : public World
                             y[k] = (ld)v.pos()[k] + (gap / 4) * (ld)d[k];
                         RefPath p = ref->locate(y);
                         std::uint32_t navvol = v.is_outside() ? kNoVol : v.volume_id().get();
-                        if (!p.valid || ref->clearance(y, p) < gap / 32)
+                        int nsurf_here = 0;
+                        {
+                            ld xh[3] = {v.pos()[0], v.pos()[1], v.pos()[2]};
+                            ld ym[3];
+                            for (int k = 0; k < 3; ++k)
+                                ym[k] = xh[k] - (gap / 4) * (ld)d[k];
+                            RefPath pm = ref->locate(ym);
+                            nsurf_here = std::max(ref->surfaces_near(xh, p, gap),
+                                                  ref->surfaces_near(xh, pm, gap));
+                        }
+                        if (!p.valid || ref->clearance(y, p) < gap / 32 || nsurf_here > 1)
                         {
                             // the reference cannot tell on which side the new
                             // direction points: stop judging this client
@@ -868,6 +938,8 @@ class WorldG : public World
         ld gap = kGapFactor * std::max(g.ref->tol_abs(), g.ref->tol_rel() * g.scale);
         for (auto& op : p["ops"])
         {
+            if (op.contains("pos"))
+                continue;  // hand-written plan
             Rng r(mix64((std::uint64_t)(op["u"][0].get<double>() * 1e15)) ^ 1234);
             double pos[3] = {0, 0, 0};
             bool ok = false;
@@ -1085,7 +1157,7 @@ class WorldG : public World
 
   private:
     static constexpr std::uint32_t kNoVol = 0xffffffffu;
-    static constexpr char const* kOpNames[9] = {"init",
+    static constexpr char const* kOpNames[10] = {"init",
                                                 "next",
                                                 "next_max",
                                                 "advance",
@@ -1093,10 +1165,11 @@ class WorldG : public World
                                                 "set_dir",
                                                 "move_pos",
                                                 "safety",
-                                                "copy_from"};
+                                                "copy_from",
+                                                "next_tie"};
 };
 
-constexpr char const* WorldG::kOpNames[9];
+constexpr char const* WorldG::kOpNames[10];
 
 std::unique_ptr<World> make_world_g()
 {
